@@ -878,6 +878,18 @@ func driverMain() int {
 	if os.Getenv("VSIM_NO_EVIDENCE") != "1" {
 		writeEvidence(verifDir, prop, tier, seed, total, len(distinct), unknown, len(knownHit), wall, nw, raceStats, total.ClassCount)
 	}
+	if pat := os.Getenv("VSIM_SHOW_PROBES"); pat != "" {
+		var names []string
+		for k := range total.Stats.Probes {
+			if strings.Contains(k, pat) {
+				names = append(names, k)
+			}
+		}
+		sort.Strings(names)
+		for _, k := range names {
+			fmt.Printf("PROBE %s=%d\n", k, total.Stats.Probes[k])
+		}
+	}
 	fmt.Printf("property=%s tier=%s cases=%d (enumerated %d of %d) runs=%d steps=%d distinct_nontrivial=%d violations=%d known=%d wall=%.1fs exit=%d\n",
 		prop, tier, total.Cases, total.EnumCases, total.EnumTotal, total.Stats.Runs, total.Stats.Steps, len(distinct), unknown, len(knownHit), wall, exit)
 	return exit
